@@ -82,7 +82,7 @@ pub fn check_progress(sc: &Scenario, tr: &Trace) -> Result<Vec<&'static str>, Fa
         (lo..=hi).map(|k| if k == 0 { 0 } else { r_pref[k - 1].1 }).collect()
     };
     // ---- figures
-    let mut check = |who: &'static str, entity: usize, t: u64, what: &'static str, fig: u64, last: &mut u64| -> Result<(), Fail> {
+    let check = |who: &'static str, entity: usize, t: u64, what: &'static str, fig: u64, last: &mut u64| -> Result<(), Fail> {
         let allowed = if who == "sender" { sender_allowed(t) } else { receiver_allowed(t) };
         if fig > size {
             return Err(fail(tr, &format!("progress-exceeds-file-size:{who}:{what}"), format!("{who} (entity {entity}) reported progress {fig} in {what} at {t} ms; the file has {size} bytes")));
